@@ -43,6 +43,11 @@ def worker(k, jobs, results, lock):
         res["clean_rc"], _ = pyrun(w, script)
         r = sweep.sh(f"git -C {w} apply {d / 'patch.diff'}")
         if r.returncode != 0:
+            # written against a HEAD a few fix: commits back — try with fuzz
+            sweep.sh(f"git -C {w} checkout -q -- . && git -C {w} clean -fdq")
+            r = sweep.sh(f"cd {w} && patch -p1 --fuzz=3 -s --no-backup-if-mismatch < {d / 'patch.diff'} && ! find . -name '*.rej' | grep -q .")
+            res["fuzz"] = r.returncode == 0
+        if r.returncode != 0:
             res["error"] = "patch does not apply: " + r.stderr[-200:]
         else:
             s = suite(w)
